@@ -787,6 +787,86 @@ func (ck *checker) freshReplica() {
 	ck.rep.Extra["fresh_replica"] = map[string]any{"before_snapshot": r1, "after_snapshot": r2}
 }
 
+// ---------------------------------------------------------------- phase E: the primary has left for good
+
+// departedPrimary is another embodiment of the model's role "noprimary": the replica was connected to a
+// primary that has shut down in an orderly way (its stream ended with an end frame, its lease is destroyed)
+// and nobody has taken over. The ground truth "no primary" comes from the lease service, not from what
+// the node believes: a write arriving at the replica's proxy has to end in an error, not in a redirect to
+// a node that is not the primary any more.
+func (ck *checker) departedPrimary() {
+	w := ck.w
+	cl := sim.NewCluster(core.Scratch("departed"))
+	defer func() { _ = core.Try(cl.Close) }()
+	cl.Lease.AllowOnly()
+	core.Beat("real:start departed-primary cluster")
+	pn, err := cl.Start("n1", sim.ClusterNodeOpts{Candidate: true})
+	if err != nil {
+		core.Infra("start n1: %v", err)
+	}
+	if err := cl.Elect("n1", 20*time.Second); err != nil {
+		core.Infra("elect n1: %v", err)
+	}
+	pstub := newStub(pn)
+	for i := 0; i < 3; i++ {
+		if _, err := pstub.commit(trackedDB); err != nil {
+			core.Infra("commit on the primary: %v", err)
+		}
+	}
+	env := &nodeEnv{role: "noprimary", proxies: map[string]*lhttp.ProxyServer{}}
+	cn, err := cl.Start("n5", sim.ClusterNodeOpts{Configure: func(s *litefs.Store) {
+		env.gate = &gatedLeaser{Leaser: s.Leaser}
+		s.Leaser = env.gate
+	}})
+	if err != nil {
+		core.Infra("start n5: %v", err)
+	}
+	env.cn = cn
+	env.stub = newStub(cn)
+	defer func() {
+		for _, p := range env.proxies {
+			_ = p.Close()
+		}
+		_ = env.stub.srv.Close()
+		_ = pstub.srv.Close()
+	}()
+	_, want := trackedPos(pn.Store, trackedDB)
+	waitFor(30*time.Second, "n5 catches up", func() bool { return env.pos(trackedDB) == want && env.known() == "n1" })
+	rp := map[string]any{"departed_primary": true}
+	// while the primary is there the write is redirected to it
+	core.Beat("real:departed primary: write while connected")
+	r0 := w.send(request{node: env, cfg: proxyCfg{DB: trackedDB, Paths: "std"}, method: "POST", path: "/app/items"})
+	core.Beat("harness")
+	ck.rep.TracesValidated++
+	ck.rep.Case("departed-primary|connected", true)
+	ck.monitors(env, "POST", "plain", "absent", r0, time.Time{}, true, rp)
+	// orderly shutdown of the primary (server first: the stream handlers send their end frame)
+	core.Beat("real:departed primary: shutdown")
+	cl.Stop("n1")
+	if h := cl.Lease.Holder(); h != "" {
+		core.Infra("the departed primary's lease is still held by %s", h)
+	}
+	a0 := env.gate.asked.Load()
+	waitFor(30*time.Second, "n5 looks for a primary again", func() bool { return env.gate.asked.Load() >= a0+3 })
+	for i, m := range []string{"POST", "PUT", "DELETE"} {
+		core.Beat("real:departed primary: write")
+		r := w.send(request{node: env, cfg: proxyCfg{DB: trackedDB, Paths: "std"}, method: m, path: "/app/items"})
+		core.Beat("harness")
+		ck.rep.TracesValidated++
+		ck.rep.Case("departed-primary|gone|"+m, true)
+		ck.monitors(env, m, "plain", "absent", r, time.Time{}, true, rp)
+		ck.rep.Eval(1)
+		if r.Err == "" && r.FlyReplay != "" {
+			ck.rep.Violate("C19.P2b.replica-write-redirected-or-error", "P2b/redirect-to-departed-primary/"+m,
+				map[string]any{"observed": r, "lease_holder_at_the_lease_service": cl.Lease.Holder(), "node_believes_primary_is": env.known(),
+					"primary_lookups_since_the_shutdown": env.gate.asked.Load() - a0}, rp)
+		}
+		if i == 0 {
+			ck.rep.Extra["departed_primary"] = map[string]any{"connected": r0, "gone": r}
+		}
+	}
+}
+
 // ---------------------------------------------------------------- TLC
 
 func collect(rep *core.Report, cfg string) (cases []*pcase, nModel, nRacy int) {
@@ -932,6 +1012,7 @@ func main() {
 	ck.runGroups(grp)
 	ck.chain(core.Pick(args, 4, 24))
 	ck.freshReplica()
+	ck.departedPrimary()
 	ck.w.close()
 	rep.Finish()
 }
@@ -972,6 +1053,7 @@ func replay(ck *checker, path string) {
 		ck.chain(2)
 	case f.Replay.Fresh:
 		ck.freshReplica()
+	ck.departedPrimary()
 	default:
 		core.Infra("replay file has neither a case nor a chain")
 	}
